@@ -79,6 +79,12 @@ theorem C08_no_invalid (cfg : Cfg) (es : List Ev) :
   simp only [accepted, acceptsSample, Bool.and_eq_true, Bool.not_eq_true'] at hv
   exact hv
 
+/-- Conversely, every sample that is neither None nor NaN — ±inf included — is accepted into the buffer. -/
+theorem C08_valid_accepted (x : Sample) (h1 : x.isNone = false) (h2 : x.isNaN = false) : accepted x = true := by
+  simp [accepted, acceptsSample, h1, h2]
+
+example : accepted ⟨0, 0, false, false, true⟩ = true := by decide
+
 /-- Time-ordered input gives a time-ordered buffer (so the window theorems apply at every tick). -/
 theorem C08_ordered_history_sorted_buffer (cfg : Cfg) (es : List Ev) (ho : SortedTs (validHistory es)) :
     SortedTs (run cfg es).buf :=
@@ -152,8 +158,8 @@ theorem C08_full : C08_statement := by
 -- a NaN sample (never buffered) and a future-stamped one (not passed).
 def C08_exCfg : Cfg := { period := 1000000, maxAge := 2, initLen := 4, maxLen := 1024 }
 def C08_exHist : List Ev :=
-  [Ev.recv ⟨1000000, 0, false, false⟩, Ev.recv ⟨1500000, 1, false, true⟩,
-   Ev.recv ⟨3000000, 2, false, false⟩, Ev.recv ⟨3500000, 3, false, false⟩]
+  [Ev.recv ⟨1000000, 0, false, false, false⟩, Ev.recv ⟨1500000, 1, false, true, false⟩,
+   Ev.recv ⟨3000000, 2, false, false, true⟩, Ev.recv ⟨3500000, 3, false, false, false⟩]
 
 example : SortedTs (validHistory C08_exHist) := by decide +kernel
 example : SortedTs (run C08_exCfg C08_exHist).buf := by decide +kernel
